@@ -7,6 +7,7 @@ import AsModel.Runtime.Offset
 import AsModel.Runtime.SrcPath
 import AsModel.Runtime.Label
 import AsModel.Runtime.Cache
+import AsModel.Runtime.Report
 import AsModel.SExp
 import AsModel.Render
 import AsModel.Temporaries
@@ -255,26 +256,26 @@ def answer (line : String) : String :=
     | some k, some a, some e => hex (errorLabel k a e)
     | _, _, _ => "bad-op"
   -- display <hex manifest> <hex file> <plain> <src: hex | none> <n> entries…
-  | "display" :: _m :: f :: _plain :: src :: n :: rest =>
-    match unhex f, n.toNat? with
-    | some f, some n =>
+  -- the report is built as the expansion builds it (`Report.new`, one `push` per entry) and displayed by the model of
+  -- `Display for ErrorReport` (Runtime/Report.lean, the function the C06 / C17 / C18 report theorems are about)
+  | "display" :: m :: f :: _plain :: src :: n :: rest =>
+    match unhex m, unhex f, n.toNat? with
+    | some m, some f, some n =>
       match parseEntries n rest with
       | none => "bad-op"
       | some es =>
-        let labels := es.map fun e => errorLabel e.kind e.actual e.expected
-        if es.isEmpty then s!"ok spans=- labels=- out=-"
-        else if src = "none" then
-          let out := fallbackDisplay f (es.zip labels |>.map fun (e, l) => (e.ls, l))
-          s!"ok spans=- labels={joinOr (labels.map hex)} out={hex out}"
-        else
-          match unhex src with
-          | none => "bad-op"
-          | some s =>
-            let spans := es.map fun e =>
-              let sp := annotationSpan s.toList e.ls e.cs e.le e.ce
-              s!"{sp.1}-{sp.2}"
-            s!"ok spans={joinOr spans} labels={joinOr (labels.map hex)} out=*"
-    | _, _ => "bad-op"
+        let r := es.foldl (fun r e => r.push ⟨e.kind, e.ls, e.cs, e.le, e.ce⟩ e.actual e.expected) (Report.new m f)
+        let source : Option (Option (List Char)) :=
+          if src = "none" then some none else (unhex src).map fun s => some s.toList
+        match source with
+        | none => "bad-op"
+        | some source =>
+          match r.display source true false false with
+          | .nothing => "ok spans=- labels=- out=-"
+          | .listing out => s!"ok spans=- labels={joinOr (r.errors.map fun e => hex e.label)} out={hex out}"
+          | .snippet _ _ as =>
+            s!"ok spans={joinOr (as.map fun a => s!"{a.start}-{a.stop}")} labels={joinOr (as.map fun a => hex a.label)} out=*"
+    | _, _, _ => "bad-op"
   | _ => "bad-op"
 
 partial def loop (h : IO.FS.Stream) (out : IO.FS.Stream) : IO Unit := do
